@@ -11,7 +11,11 @@ package nebula
 
 import (
 	"context"
+	crand "crypto/rand"
+	"encoding/binary"
 	"fmt"
+	"io"
+	"sort"
 	"log/slog"
 	"net/netip"
 	"time"
@@ -183,3 +187,207 @@ func (n *VerifNMNode) Abandon(addr netip.Addr) {
 }
 
 var _ = time.Now
+
+// ---- scripted index allocation ---------------------------------------------------------------------------------
+
+// verifNMRand serves the 4-byte reads of generateIndex from a script (afterwards from the real source) and passes every
+// other read (ephemeral keys) to the real source. Every served 4-byte value is recorded.
+type verifNMRand struct {
+	real   io.Reader
+	script []uint32
+	served []uint32
+}
+
+func (r *verifNMRand) Read(p []byte) (int, error) {
+	if len(p) != 4 {
+		return io.ReadFull(r.real, p)
+	}
+	if len(r.script) > 0 {
+		binary.BigEndian.PutUint32(p, r.script[0])
+		r.script = r.script[1:]
+	} else if _, err := io.ReadFull(r.real, p); err != nil {
+		return 0, err
+	}
+	r.served = append(r.served, binary.BigEndian.Uint32(p))
+	return 4, nil
+}
+
+// VerifNMWithRand runs fn with crypto/rand.Reader replaced: the index candidates generateIndex draws come from script.
+// Returns the candidates that were drawn.
+func VerifNMWithRand(script []uint32, fn func()) []uint32 {
+	r := &verifNMRand{real: crand.Reader, script: script}
+	old := crand.Reader
+	crand.Reader = io.Reader(r)
+	defer func() { crand.Reader = old }()
+	fn()
+	return r.served
+}
+
+// ---- more ways in -----------------------------------------------------------------------------------------------
+
+func verifNMUnderlayNum(ap netip.AddrPort) uint64 {
+	if !ap.IsValid() {
+		return 0
+	}
+	b := ap.Addr().As4()
+	return uint64(b[3])
+}
+
+func verifNMAddrNum(a netip.Addr) uint64 {
+	if !a.Is4() {
+		return 0
+	}
+	b := a.As4()
+	return uint64(b[3])
+}
+
+// IncomingRelayed is Incoming for a packet that arrived through the relay with overlay address 10.0.0.<relay>.
+func (n *VerifNMNode) IncomingRelayed(pkt []byte, relay int) (reply []byte, tun *VerifNMTunnel) {
+	var h header.H
+	verifNMMust(h.Parse(pkt))
+	before := n.tunnels()
+	buf := append([]byte(nil), pkt...)
+	relayHI := &HostInfo{vpnAddrs: []netip.Addr{netip.AddrFrom4([4]byte{10, 0, 0, byte(relay)})}}
+	n.hsm.HandleIncoming(ViaSender{relayHI: relayHI, relay: &Relay{}, IsRelayed: true}, buf, &h)
+	for hi := range n.tunnels() {
+		if _, old := before[hi]; old || hi.ConnectionState == nil {
+			continue
+		}
+		cs := hi.ConnectionState
+		tun = &VerifNMTunnel{PeerCert: cs.peerCert, MyCert: cs.myCert, RemoteIndex: hi.remoteIndexId, LocalIndex: hi.localIndexId,
+			Counter: cs.messageCounter.Load(), Initiator: cs.initiator, EKey: cs.eKey, DKey: cs.dKey}
+	}
+	return nil, tun
+}
+
+// Retransmit runs the next real handleOutbound attempt of the pending handshake for addr and returns the handshake
+// packet that reached the socket (nil if none).
+func (n *VerifNMNode) Retransmit(addr netip.Addr) []byte {
+	sent := len(n.rec.pkts)
+	n.hsm.handleOutbound(addr, false)
+	var out []byte
+	for _, p := range n.rec.pkts[sent:] {
+		if len(p) >= header.Len && header.MessageType(p[0]&0x0f) == header.Handshake {
+			out = p
+		}
+	}
+	return out
+}
+
+// StartPending is Start without a peer in mind: it leaves a pending handshake (with an allocated local index) behind.
+func (n *VerifNMNode) StartPending(addr netip.Addr) uint32 {
+	n.Start(addr, 250)
+	if hh := n.hsm.queryVpnIp(addr); hh != nil {
+		return hh.hostinfo.localIndexId
+	}
+	return 0
+}
+
+// ---- dumps ------------------------------------------------------------------------------------------------------
+
+// VerifNMPending is everything observable about the pending handshake for an overlay address.
+type VerifNMPending struct {
+	Present    bool
+	LocalIndex uint32
+	Remote     uint64   // underlay address number of hostinfo.remote (0 = none)
+	Relays     []uint64 // overlay address numbers of hostinfo.relayState relays
+	Remotes    []uint64 // underlay address numbers of hostinfo.remotes
+	Counter    int64
+	Stored     int
+	Failed     bool
+}
+
+func (n *VerifNMNode) Pending(addr netip.Addr) VerifNMPending {
+	hh := n.hsm.queryVpnIp(addr)
+	if hh == nil {
+		return VerifNMPending{}
+	}
+	hi := hh.hostinfo
+	d := VerifNMPending{Present: true, LocalIndex: hi.localIndexId, Remote: verifNMUnderlayNum(hi.GetRemote()), Counter: hh.counter, Stored: len(hh.packetStore)}
+	if n.hsm.queryIndex(hi.localIndexId) != hh {
+		d.LocalIndex = 0 // the index no longer leads to this handshake
+	}
+	for _, r := range hi.relayState.CopyRelayIps() {
+		d.Relays = append(d.Relays, verifNMAddrNum(r))
+	}
+	if hi.remotes != nil {
+		for _, ap := range hi.remotes.CopyAddrs(n.hm.GetPreferredRanges()) {
+			d.Remotes = append(d.Remotes, verifNMUnderlayNum(ap))
+		}
+	}
+	if hh.machine != nil {
+		d.Failed = hh.machine.Failed()
+	}
+	return d
+}
+
+// VerifNMTunnelDump is one hostinfo of the main hostmap.
+type VerifNMTunnelDump struct {
+	Peer        uint64 // overlay address number of vpnAddrs[0]
+	LocalIndex  uint32
+	RemoteIndex uint32
+	Counter     uint64
+	Initiator   bool
+	Remote      uint64
+	Relays      []uint64
+	Primary     bool
+}
+
+// Tunnels lists the main hostmap by local index, plus the local indexes of pending handshakes.
+func (n *VerifNMNode) Tunnels() (tuns []VerifNMTunnelDump, pending []uint32) {
+	n.hm.RLock()
+	for idx, hi := range n.hm.Indexes {
+		d := VerifNMTunnelDump{Peer: verifNMAddrNum(hi.vpnAddrs[0]), LocalIndex: idx, RemoteIndex: hi.remoteIndexId, Remote: verifNMUnderlayNum(hi.GetRemote()),
+			Primary: n.hm.Hosts[hi.vpnAddrs[0]] == hi}
+		if hi.ConnectionState != nil {
+			d.Counter, d.Initiator = hi.ConnectionState.messageCounter.Load(), hi.ConnectionState.initiator
+		}
+		for _, r := range hi.relayState.CopyRelayIps() {
+			d.Relays = append(d.Relays, verifNMAddrNum(r))
+		}
+		tuns = append(tuns, d)
+	}
+	n.hm.RUnlock()
+	sort.Slice(tuns, func(i, j int) bool { return tuns[i].LocalIndex < tuns[j].LocalIndex })
+	n.hsm.RLock()
+	for idx := range n.hsm.indexes {
+		pending = append(pending, idx)
+	}
+	n.hsm.RUnlock()
+	sort.Slice(pending, func(i, j int) bool { return pending[i] < pending[j] })
+	return tuns, pending
+}
+
+// Seal builds a data packet on the tunnel with the given local index the way the node does (header with the tunnel's
+// remote index and next counter, AEAD over the payload with the header as associated data).
+func (n *VerifNMNode) Seal(localIndex uint32, payload []byte) []byte {
+	hi := n.hm.QueryIndex(localIndex)
+	if hi == nil || hi.ConnectionState == nil {
+		return nil
+	}
+	c, ok := hi.ConnectionState.NextMessageCounter()
+	if !ok {
+		return nil
+	}
+	out := header.Encode(make([]byte, header.Len, header.Len+len(payload)+16), header.Version, header.Message, 0, hi.remoteIndexId, c)
+	out, err := hi.ConnectionState.eKey.EncryptDanger(out, out, payload, c, make([]byte, 12))
+	if err != nil {
+		return nil
+	}
+	return out
+}
+
+// Open looks the packet up by the index it is addressed to, as the receive path does, and tries to open it with that
+// tunnel's receiving key. Returns the local index of the tunnel it reached (0 if none) and whether it opened.
+func (n *VerifNMNode) Open(pkt []byte) (uint32, bool) {
+	var h header.H
+	if err := h.Parse(pkt); err != nil {
+		return 0, false
+	}
+	hi := n.hm.QueryIndex(h.RemoteIndex)
+	if hi == nil || hi.ConnectionState == nil {
+		return 0, false
+	}
+	_, err := hi.ConnectionState.dKey.DecryptDanger(nil, pkt[:header.Len], pkt[header.Len:], h.MessageCounter, make([]byte, 12))
+	return hi.localIndexId, err == nil
+}
